@@ -18,7 +18,7 @@ Fails == {"noent", "noentabs", "noexec", "enoexec", "dir", "emptyargs", "hugearg
 \* every exec variant: what to run x sync mode x callback x cancellation
 ExecAll ==
   { Op("exec", v, sa, cb, c) :
-      v \in Fails \cup {"run", "runslow", "term", "sleep", "fdexec", "envrun"}, sa \in BOOLEAN, cb \in {"none", "ok", "fail"},
+      v \in Fails \cup {"run", "runslow", "term", "sleep", "fdexec", "envrun", "cgexec"}, sa \in BOOLEAN, cb \in {"none", "ok", "fail"},
       c \in {"none", "pre", "running", "race"} }
 \* a sleeping program needs a cancel (or a failing callback) to end
 Sane(o) == o.v = "sleep" => (o.cancel \in {"pre", "running"} \/ o.cb = "fail")
@@ -60,7 +60,7 @@ Loss == { [ops |-> pre \o <<[k |-> how, v |-> "", sa |-> FALSE, cb |-> "none", c
 \* (g) carry-over: a request whose field is left at its zero value right after a request that set it
 \* (executable descriptor, environment, path, batch) -- host and container must agree on THIS command
 Carry ==
-  { H(<<a, b>>, "", "") : a \in { Op("exec", "fdexec", sa, cb, "none") : sa \in BOOLEAN, cb \in {"none", "ok"} }
+  { H(<<a, b>>, "", "") : a \in { Op("exec", v, sa, cb, "none") : v \in {"fdexec", "cgexec"}, sa \in BOOLEAN, cb \in {"none", "ok"} }
                                \cup { Op("exec", "envrun", sa, "ok", "none") : sa \in BOOLEAN },
                         b \in { Op("exec", "run", sa, "ok", "none") : sa \in BOOLEAN } }
   \cup { H(<<Op("delete", "ok", FALSE, "none", "none"), Op("delete", "emptypath", FALSE, "none", "none")>>, "", ""),
